@@ -22,6 +22,8 @@ type verifServerMsg struct {
 	sid     []byte // server identifier bytes
 	yi      []byte // yiaddr
 	decoded *dhcpv4.DHCPv4
+	hwKind  int  // 0: the client's hardware address; 1: none (hlen 0); 2: another station's
+	xidOwn  bool // with hwKind != 0: whether the datagram bears the client's transaction id all the same
 }
 
 // verifScriptServer makes the connection answer the n-th transmission with the replies[n] stream.
@@ -30,6 +32,7 @@ type verifScript struct {
 	replies [][]*verifServerMsg
 	seen    []*dhcpv4.DHCPv4 // decoded client transmissions
 	dests   []net.Addr
+	hwMask  int // base-3 digits, one per reply built: its hwKind
 }
 
 func verifTypedSID(m *verifServerMsg) []byte {
@@ -56,6 +59,13 @@ func (s *verifScript) build(tag string, sidKind int, typed int) *verifServerMsg 
 		m.sid = verifBytes(tag+".sid", 3)
 	}
 	m.yi = verifBytes(tag+".yiaddr", 4)
+	m.hwKind = s.hwMask % 3
+	s.hwMask /= 3
+	if m.hwKind != 0 {
+		// addressed to nobody / to another station: not this client's, whatever its transaction id
+		m.xidOwn = m.ownXID
+		m.ownXID = false
+	}
 	return m
 }
 
@@ -65,6 +75,15 @@ func (m *verifServerMsg) encode(xid dhcpv4.TransactionID) []byte {
 	p.TransactionID = xid
 	if !m.ownXID {
 		p.TransactionID = verifForeignXID
+	}
+	switch m.hwKind {
+	case 1:
+		p.ClientHWAddr = nil
+	case 2:
+		p.ClientHWAddr = net.HardwareAddr{2, 0, 0, 0, 0, 0x77}
+	}
+	if m.hwKind != 0 && m.xidOwn {
+		p.TransactionID = xid
 	}
 	if m.hasType {
 		p.Options[53] = []byte{m.mt}
@@ -110,9 +129,16 @@ func verifIs(m *verifServerMsg, t dhcpv4.MessageType) bool {
 
 // VerifC13Request: the 4-way exchange with n1 replies to DISCOVER and n2 replies to REQUEST.
 // shape selects, per reply, server-id kind (0 absent, 1 valid, 2 malformed) in base 3.
-func VerifC13Request(n1, n2, shape int) {
+func VerifC13Request(n1, n2, shape int) { verifC13Request(n1, n2, shape, 0) }
+
+// VerifC13OtherHW: as VerifC13Request; hwMask gives, per reply in script order (base 3), whose
+// hardware address it carries: 0 the client's, 1 none at all (hlen 0), 2 another station's. Replies
+// not addressed to the client are ignored whatever transaction id they bear.
+func VerifC13OtherHW(n1, n2, shape, hwMask int) { verifC13Request(n1, n2, shape, hwMask) }
+
+func verifC13Request(n1, n2, shape, hwMask int) {
 	base := newVerifConn()
-	sc := &verifScript{conn: base}
+	sc := &verifScript{conn: base, hwMask: hwMask}
 	conn := &verifServerConn{verifConn: base, script: sc}
 	sh := shape
 	mk := func(tag string, n int) []*verifServerMsg {
